@@ -83,6 +83,18 @@ Proof.
   - apply agree_unknown; assumption.
 Qed.
 
+Lemma C10_aux_crypto t : 0 <= t <= 65535 -> kc_crypto_size t = spec_crypto_len t /\ kc_crypto_pub_sizes t = spec_crypto_len t.
+Proof.
+  intros R. pose proof (tables_agree_all t R) as H. unfold agree_code in H.
+  repeat rewrite Bool.andb_true_iff in H. destruct H as [[[[[[[A B] C] D] E] F] G] I].
+  split; apply optZ_eqb_eq; assumption.
+Qed.
+Lemma C10_aux_signing t : 0 <= t <= 65535 -> kc_spk_size t = spec_spk_len t /\ kc_sig_size t = spec_sig_len t.
+Proof.
+  intros R. pose proof (tables_agree_all t R) as H. unfold agree_code in H.
+  repeat rewrite Bool.andb_true_iff in H. destruct H as [[[[[[[A B] C] D] E] F] G] I].
+  split; apply optZ_eqb_eq; assumption.
+Qed.
 (* outside the 16-bit range getSignatureLength is an error for every integer *)
 Lemma sig_length_out_of_range t : t < 0 \/ t > 65535 -> sig_length t = None.
 Proof. intros H. unfold sig_length. replace ((t <? 0) || (t >? 65535))%bool with true by lia. reflexivity. Qed.
